@@ -65,7 +65,8 @@ namespace cnl {
         }
         [[nodiscard]] constexpr auto step1(Lhs const& lhs, Rhs const& rhs) const -> result_type
         {
-            return (rhs < 0) ? step2(-lhs, -rhs) : step2(lhs, rhs);
+            return (rhs < 0) ? step2(-static_cast<result_type>(lhs), -static_cast<result_type>(rhs))
+                             : step2(lhs, rhs);
         }
 
     public:
